@@ -110,7 +110,7 @@ class Polyline:
         rounded = self.rounded(decimals=decimals)
         return {
             "vertices": rounded.v.tolist(),
-            "isClosed": rounded.is_closed,
+            "isClosed": bool(rounded.is_closed),
         }
 
     @classmethod
